@@ -164,6 +164,21 @@ Theorem C09_holder_locks_mutex : forall progs sched, io_progs progs -> disc_from
 Proof. exact keyed_holder_locks_mutex. Qed.
 Print Assumptions C09_holder_locks_mutex.
 
+(* A condition on the PROGRAMS that implies the discipline under every schedule: in each thread's
+   program every UnlockKey(k) / RUnlockKey(k) is preceded by a blocking LockKey(k) / RLockKey(k) of the
+   same thread that no earlier Unlock/RUnlock has consumed ([balanced]; keys obtained through Try* are
+   not counted, so such programs never unlock them - for programs that do, use [disc_from]). *)
+Theorem C09_balanced_programs_are_disciplined : forall progs sched,
+  io_progs progs -> balanced progs -> disc_from (init_config 1 progs) sched.
+Proof. exact balanced_disciplined. Qed.
+Print Assumptions C09_balanced_programs_are_disciplined.
+
+Theorem C09_mutual_exclusion_balanced : forall progs sched, io_progs progs -> balanced progs ->
+  let c := run_schedule (init_config 1 progs) sched in
+  forall k t1 t2, holds_excl c t1 k -> (holds_excl c t2 k -> t1 = t2) /\ ~ holds_shared c t2 k.
+Proof. exact keyed_mutual_exclusion_balanced. Qed.
+Print Assumptions C09_mutual_exclusion_balanced.
+
 (* ================= Try*/Lock at the level of keys ================= *)
 (* A disciplined run never panics (no unlock of an unlocked mutex). *)
 Theorem C09_disciplined_no_panic : forall progs sched, io_progs progs -> disc_from (init_config 1 progs) sched ->
